@@ -565,13 +565,17 @@ func (g *schemaGenerator) determineTypeName(t *schemas.Type) (string, bool) {
 
 		if len(t.AnyOf) != 0 {
 			refType := t.AnyOf[0]
+			if refType == nil {
+				// A null element is reported when the composition itself is generated.
+				return schemas.TypeNameNull, false
+			}
 
 			for k, v := range t.AnyOf {
 				if k == 0 {
 					continue
 				}
 
-				if !refType.Type.Equals(v.Type) {
+				if v == nil || !refType.Type.Equals(v.Type) {
 					return schemas.TypeNameNull, false
 				}
 			}
@@ -581,13 +585,17 @@ func (g *schemaGenerator) determineTypeName(t *schemas.Type) (string, bool) {
 
 		if len(t.AllOf) != 0 {
 			refType := t.AllOf[0]
+			if refType == nil {
+				// A null element is reported when the composition itself is generated.
+				return schemas.TypeNameNull, false
+			}
 
 			for k, v := range t.AllOf {
 				if k == 0 {
 					continue
 				}
 
-				if !refType.Type.Equals(v.Type) {
+				if v == nil || !refType.Type.Equals(v.Type) {
 					return schemas.TypeNameNull, false
 				}
 			}
